@@ -11,8 +11,8 @@ import (
 
 // poolExempt: pooled struct type → field → reason (reviewed).
 var poolExempt = map[string]map[string]string{
-	"pkg/common/stackless.funcWork":            {"done": "reusable completion channel (capacity 1, drained by the waiter before putFuncWork); carries no data between users"},
-	"pkg/route.hijackConn":                     {"e": "immutable back-pointer to the owning engine; the pool is a field of that same engine"},
+	"pkg/common/stackless.funcWork":             {"done": "reusable completion channel (capacity 1, drained by the waiter before putFuncWork); carries no data between users"},
+	"pkg/route.hijackConn":                      {"e": "immutable back-pointer to the owning engine; the pool is a field of that same engine"},
 	"pkg/protocol/http1/resp.chunkedBodyWriter": {"Once": "reset on the acquire side: NewChunkedBodyWriter assigns `Once = sync.Once{}` right after Get (checked by C09.pools acquire-side obligation)"},
 	"pkg/app.RequestContext": {"HTMLRender": excServer, "enableTrace": excServer, "binder": excBinder, "validator": excBinder, "clientIPFunc": excEngine, "formValueFunc": excEngine,
 		"mu": excMutex, "finishedMu": excMutex, "hijackHandler": "cleared by Server.Serve after every handler (C09.order)", "exiled": "exiled contexts are never pooled (C09.scoped)"},
